@@ -132,11 +132,13 @@ Definition reg_agree (c : regcase) : bool :=
   let dk := nth (r_k c) (shape X0) 0%nat in
   let ns := length (r_Xs c) in
   let ny := gsum Qops ns (fun s => Qred (nth s (r_ys c) 0 * nth s (r_ys c) 0)) in
+  (* predictions with the new factor, computed once: cpreg_normal_lhs = sum_s MTTKRP_s(i,r) * (y_s - prediction_s) *)
+  let preds := map (fun X => cp_inner Qops X w (set_nth (r_k c) (r_xnew c) (r_facs c)) (r_rank c)) (r_Xs c) in
   forall_lt dk (fun i => forall_lt (r_rank c) (fun r =>
-    let lhs := cpreg_normal_lhs Qops (r_Xs c) (r_ys c) w (r_facs c) (r_k c) (r_rank c) (r_xnew c) i r in
+    let lhs := gsum Qops ns (fun s => Qred (cp_mttkrp Qops (nth s (r_Xs c) (mk [] [])) w (r_facs c) (r_k c) i r * (nth s (r_ys c) 0 - nth s preds 0))) in
     let rhs := Qred (r_reg c * mget Qops (r_xnew c) i r) in
     let sc := qsumabs ns (fun s => cp_mttkrp Qops (nth s (r_Xs c) (mk [] [])) w (r_facs c) (r_k c) i r *
-                (Qabs (nth s (r_ys c) 0) + Qabs (cp_inner Qops (nth s (r_Xs c) (mk [] [])) w (set_nth (r_k c) (r_xnew c) (r_facs c)) (r_rank c)))) in
+                (Qabs (nth s (r_ys c) 0) + Qabs (nth s preds 0))) in
     qle (Qabs (lhs - rhs)) (tol_cert * (sc + Qabs rhs) + atol_tiny))) &&
   (let before := cpreg_obj Qops (r_Xs c) (r_ys c) w (r_facs c) (r_k c) dk (r_rank c) (r_reg c) in
    let after := cpreg_obj Qops (r_Xs c) (r_ys c) w (set_nth (r_k c) (r_xnew c) (r_facs c)) (r_k c) dk (r_rank c) (r_reg c) in
@@ -193,22 +195,23 @@ Definition tkreg_agree (c : tkregcase) : bool :=
   let Xs := g_Xs c in let ys := g_ys c in let rs := g_rs c in let ns := length Xs in
   let ny := gsum Qops ns (fun s => Qred (nth s ys 0 * nth s ys 0)) in
   if g_iscore c then
+    (* predictions with the new core, computed once *)
+    let preds := map (fun X => tk_inner Qops X rs (g_newcore c) (g_Us c)) Xs in
     forall_lt (prod rs) (fun q =>
-      let lhs := tkreg_core_normal_lhs Qops Xs ys rs (g_newcore c) (g_Us c) q in
+      let lhs := gsum Qops ns (fun s => Qred (tk_core_at Qops (nth s Xs (mk [] [])) (g_Us c) (unravel rs q) * (nth s ys 0 - nth s preds 0))) in
       let rhs := Qred (g_reg c * nth q (g_newcore c) 0) in
-      let sc := qsumabs ns (fun s => tk_core_at Qops (nth s Xs (mk [] [])) (g_Us c) (unravel rs q) *
-                  (Qabs (nth s ys 0) + Qabs (tk_inner Qops (nth s Xs (mk [] [])) rs (g_newcore c) (g_Us c)))) in
+      let sc := qsumabs ns (fun s => tk_core_at Qops (nth s Xs (mk [] [])) (g_Us c) (unravel rs q) * (Qabs (nth s ys 0) + Qabs (nth s preds 0))) in
       qle (Qabs (lhs - rhs)) (tol_cert * (sc + Qabs rhs) + atol_tiny)) &&
     qle (tkreg_obj_core Qops Xs ys rs (g_newcore c) (g_Us c) (g_reg c))
         (tkreg_obj_core Qops Xs ys rs (g_core c) (g_Us c) (g_reg c) + tol_obj * (ny + 1))
   else
     let k := g_k c in let dk := nth k (shape (nth 0 Xs (mk [] []))) 0%nat in
     let Us' := set_nth k (g_newfac c) (g_Us c) in
+    let preds := map (fun X => tk_inner Qops X rs (g_core c) Us') Xs in
     forall_lt dk (fun i => forall_lt (nth k rs 0%nat) (fun b =>
-      let lhs := tkreg_fac_normal_lhs Qops Xs ys rs (g_core c) (g_Us c) k (g_newfac c) i b in
+      let lhs := gsum Qops ns (fun s => Qred (tkreg_coef Qops (nth s Xs (mk [] [])) rs (g_core c) (g_Us c) k i b * (nth s ys 0 - nth s preds 0))) in
       let rhs := Qred (g_reg c * mget Qops (g_newfac c) i b) in
-      let sc := qsumabs ns (fun s => tkreg_coef Qops (nth s Xs (mk [] [])) rs (g_core c) (g_Us c) k i b *
-                  (Qabs (nth s ys 0) + Qabs (tk_inner Qops (nth s Xs (mk [] [])) rs (g_core c) Us'))) in
+      let sc := qsumabs ns (fun s => tkreg_coef Qops (nth s Xs (mk [] [])) rs (g_core c) (g_Us c) k i b * (Qabs (nth s ys 0) + Qabs (nth s preds 0))) in
       qle (Qabs (lhs - rhs)) (tol_cert * (sc + Qabs rhs) + atol_tiny))) &&
     qle (tkreg_obj_fac Qops Xs ys rs (g_core c) Us' k dk (g_reg c))
         (tkreg_obj_fac Qops Xs ys rs (g_core c) (g_Us c) k dk (g_reg c) + tol_obj * (ny + 1)).
